@@ -16,7 +16,7 @@ C06  Optimisers return feasible solutions with truthful objective values  (struc
 """
 import ast
 
-from sa.astutil import dump, where, kwargs_of, walk_no_nested, is_const, field_of
+from sa.astutil import oriented, dump, where, kwargs_of, walk_no_nested, is_const, field_of
 from sa.model import AnalysisError, body_nodoc, ClassInfo
 from sa.order import enumerate_paths, Event, names
 from rules.c17 import _swap, _defs
@@ -363,10 +363,18 @@ def check_hillclimber(prog, rep, mod, cname):
         good = False
     # acceptance conditions (lexicographic)
     ifs = [s for s in inner.body if isinstance(s, ast.If)]
+    def _nt(t):
+        """comparison text with the proposal on the left (a < b is b > a); conjunctions with sorted parts"""
+        if t is None:
+            return None
+        if isinstance(t, ast.BoolOp) and isinstance(t.op, ast.And):
+            return " and ".join(sorted(_nt(v) for v in t.values))
+        o = oriented(t, lambda e: dump(e).startswith("prop_"))
+        return dump(o if o is not None else t)
     if len(ifs) == 1:
-        t1 = dump(ifs[0].test)
-        t2 = dump(ifs[0].orelse[0].test) if ifs[0].orelse and isinstance(ifs[0].orelse[0], ast.If) else None
-        if t1 != "prop_cv < best_cv" or t2 not in ("prop_cv == best_cv and prop_score < best_score", "prop_score < best_score and prop_cv == best_cv"):
+        t1 = _nt(ifs[0].test)
+        t2 = _nt(ifs[0].orelse[0].test) if ifs[0].orelse and isinstance(ifs[0].orelse[0], ast.If) else None
+        if t1 != "prop_cv < best_cv" or t2 not in ("prop_cv == best_cv and prop_score < best_score",):
             rep.violate("R3-swaps", construct, "acceptance is (%s) / (%s), not lexicographic (violation <) then (violation == and score <)" % (t1, t2), where(f, ifs[0]),
                         "prop_cv < best_cv | prop_cv == best_cv and prop_score < best_score", "%s | %s" % (t1, t2))
             good = False
